@@ -237,14 +237,28 @@ pub fn eval_plain(text: &str) -> Out {
     let dict = FstDictionary::curated();
     let ext = match &r_ext { Some(e) => e.clone(), None => String::new() };
     let dop = format!("doc | {} | {}", text_field(&src), ext);
+    // the same pipeline with NOTHING handed over: the model's own url / e-mail / hostname lexers
+    // compute the table (`documentFull`, the definition `documentFull_tiles` is about)
+    let dfop = format!("docfull | {}", text_field(&src));
     match guarded(|| Document::new(text, &PlainEnglish, &dict)) {
         Ok(doc) => {
             let toks = doc.get_tokens();
-            out.k.push((dop, format!("ok {}", toks_show(toks)).trim_end().to_string()));
+            let dimp = format!("ok {}", toks_show(toks)).trim_end().to_string();
+            out.k.push((dfop, dimp.clone()));
+            for t in toks {
+                match t.kind {
+                    TokenKind::Url => out.counts.push("docfull:url".into()),
+                    TokenKind::EmailAddress => out.counts.push("docfull:email".into()),
+                    TokenKind::Hostname => out.counts.push("docfull:hostname".into()),
+                    _ => {}
+                }
+            }
+            out.k.push((dop, dimp));
             doc_counts(&src, toks, &mut out);
             check_tokens("plaintext", text, doc.get_source(), toks, true, &mut out);
         }
         Err(_) => {
+            out.k.push((dfop, "panic".into()));
             out.k.push((dop, "panic".into()));
             out.fails.push(("panic".into(), "Document::new panicked".into(), json!({"frontend": "plaintext", "text": text})));
         }
@@ -649,7 +663,7 @@ pub fn run(ctx: &Ctx) {
     // --- K: the Typst translator's own logic and the HTML Space clamp (c02typst.rs) --------
     crate::c02typst::run_into(&mut sess, ctx, &mut rng);
     sess.finish(
-        "K: PlainEnglish::parse vs the Lean lexer model, every text twice: op `lex` (url/e-mail/hostname tokens handed to the model as a table) and op `lexfull` (those three lexers computed by the model, nothing handed over), and Document::new(text, &PlainEnglish, dict).get_tokens() vs the Lean model of Document::parse (op `doc`: all condensing passes, quote twins, number suffixes), on (1) corpus of lexer corner cases incl. curated url / e-mail / hostname corner cases alone and embedded, (2) ALL strings of length ≤4 (quick) / ≤5 (thorough) over the alphabet {a,1,.,',space,tab,newline,s,0,x,[,],-,e} and over the alphabet {a,1,.,-,@,:,/,%,\",space,+,_,A,é}, and ALL sequences of ≤4 / ≤5 pieces from {a,b,.,',space,tab,newline,et,al,etc,Vs,1,st,\",nD,I}, (3) structured random texts (rule-test sentences mutated by truncation, spice splices, delimiter drops, long words, glued digits), random code points, and random url / address / host look-alikes; op `extlex`: lex_url / lex_email_address / lex_hostname_token / lex_hostname compiled from /repo and called directly on arbitrary slices (suffixes of the curated cases, ALL strings of length ≤4/5 over the second alphabet, random look-alikes), result lengths against the model and against 1 ≤ n ≤ slice length. O: the property's clauses (bounds, order, disjointness, zero-width only structural, plain tiling, per-kind shape, quote twins) on the final Document tokens of plain English and of every language id of the server's table (prose embedded in language-appropriate syntax, plus the repo's fixtures), also wrapped in CollapseIdentifiers / IsolateEnglish. K (c02md.rs): op `mdparse` / `wikiclean` — pulldown-cmark's real events (variant, byte range, text length; same Options as markdown.rs) + the text → the Lean model of Markdown::parse (event loop, traversed_bytes/chars, tag stack, inner PlainEnglish parse computed by the model, trailing-break pop, remove_hidden_wikilink_tokens, remove_wikilink_brackets) vs the real Markdown::new(opts).parse, both ignore_link_title settings: corpus (the parser's tests, wikilink witnesses, repo fixtures), ALL concatenations of ≤4 (quick) / ≤5 (thorough) of 16 markup pieces {a, space, newline, *, `, [, ], (x), #, `- `, é, |, `> `, <b>, $, backslash} (option off; ≤3/≤4 with the option on), ALL concatenations of ≤6 of {[[, ]], |, a, space, backslash, [b](x)} (option off; ≤5/≤6 with the option on), random generated Markdown files / markup soup / wikilink soup with multi-byte text; the hypotheses of the Markdown theorems (EventsOK) are monitors on every event list. Ops `collapse`, `isolate`, `isolatev` — the real CollapseIdentifiers / IsolateEnglish over PlainEnglish and Markdown vs the model, the inner tokens and the dictionary's answers (resp. the real is_likely_english verdict per chunk) handed over: ALL concatenations of ≤5/≤6 of 9 identifier pieces, all chunks of ≤9 known/unknown words × 3 tails, random identifier and mixed-language texts. K (c02typst.rs): op `typst` — the real typst_syntax::Source of every Typst text serialised by calling exactly the accessors typst_translator.rs calls (per Expr / Pattern / Arg / Param / ArrayItem / DictItem / DestructuringItem variant: the match arm, the byte range doc.range(span) gives or `-` for a detached node, the node text where the translator reads it, the accessor results as subtrees) + the text → the Lean model of harper_typst::Typst.parse (convert_parbreaks, parse_expr / parse_pattern arm by arm, def_token! / merge! / get_text!, OffsetCursor, inner PlainEnglish parse computed by the model) vs the real parser; op `typok` — the harness's Rust mirror of TreeOK / NoAlias / InOrder vs the model's own definitions; monitors on every real tree: TreeOK, in-bounds-when-TreeOK, sorted-when-InOrder: corpus (the repo's Typst fixtures, the recorded findings' witnesses), ALL concatenations of ≤4 (quick) / ≤5 (thorough) of the 20 pieces {`#let `, x, ` = `, (, ), [, ], *a*, _b_, `= H`, newline, `- i`, $x$, \"s\", #f, `: `, `, `, .., space, é}, every prefix of four realistic documents and (every 7th / every) prefix of the fixtures, random Typst markup / code soup / spliced documents. Ops `htmlclamp` / `htmlclampt` — the Space clamp of HtmlParser::parse on the tokens of the inner Mask parse (random HTML with runs of blanks and tabs). Non-trivial = a plain text whose tokens have ≥3 distinct kinds; distinct by op line.",
+        "K: PlainEnglish::parse vs the Lean lexer model, every text twice: op `lex` (url/e-mail/hostname tokens handed to the model as a table) and op `lexfull` (those three lexers computed by the model, nothing handed over), and Document::new(text, &PlainEnglish, dict).get_tokens() vs the Lean model of Document::parse (every text twice: op `doc` — all condensing passes, quote twins, number suffixes, the real lexers' url / e-mail / hostname tokens handed over as a table — and op `docfull` — the same pipeline with those three lexers computed by the model, nothing handed over: the definition `documentFull` of the theorems), on (1) corpus of lexer corner cases incl. curated url / e-mail / hostname corner cases alone and embedded, (2) ALL strings of length ≤4 (quick) / ≤5 (thorough) over the alphabet {a,1,.,',space,tab,newline,s,0,x,[,],-,e} and over the alphabet {a,1,.,-,@,:,/,%,\",space,+,_,A,é}, and ALL sequences of ≤4 / ≤5 pieces from {a,b,.,',space,tab,newline,et,al,etc,Vs,1,st,\",nD,I}, (3) structured random texts (rule-test sentences mutated by truncation, spice splices, delimiter drops, long words, glued digits), random code points, and random url / address / host look-alikes; op `extlex`: lex_url / lex_email_address / lex_hostname_token / lex_hostname compiled from /repo and called directly on arbitrary slices (suffixes of the curated cases, ALL strings of length ≤4/5 over the second alphabet, random look-alikes), result lengths against the model and against 1 ≤ n ≤ slice length. O: the property's clauses (bounds, order, disjointness, zero-width only structural, plain tiling, per-kind shape, quote twins) on the final Document tokens of plain English and of every language id of the server's table (prose embedded in language-appropriate syntax, plus the repo's fixtures), also wrapped in CollapseIdentifiers / IsolateEnglish. K (c02md.rs): op `mdparse` / `wikiclean` — pulldown-cmark's real events (variant, byte range, text length; same Options as markdown.rs) + the text → the Lean model of Markdown::parse (event loop, traversed_bytes/chars, tag stack, inner PlainEnglish parse computed by the model, trailing-break pop, remove_hidden_wikilink_tokens, remove_wikilink_brackets) vs the real Markdown::new(opts).parse, both ignore_link_title settings: corpus (the parser's tests, wikilink witnesses, repo fixtures), ALL concatenations of ≤4 (quick) / ≤5 (thorough) of 16 markup pieces {a, space, newline, *, `, [, ], (x), #, `- `, é, |, `> `, <b>, $, backslash} (option off; ≤3/≤4 with the option on), ALL concatenations of ≤6 of {[[, ]], |, a, space, backslash, [b](x)} (option off; ≤5/≤6 with the option on), random generated Markdown files / markup soup / wikilink soup with multi-byte text; the hypotheses of the Markdown theorems (EventsOK) are monitors on every event list. Ops `collapse`, `isolate`, `isolatev` — the real CollapseIdentifiers / IsolateEnglish over PlainEnglish and Markdown vs the model, the inner tokens and the dictionary's answers (resp. the real is_likely_english verdict per chunk) handed over: ALL concatenations of ≤5/≤6 of 9 identifier pieces, all chunks of ≤9 known/unknown words × 3 tails, random identifier and mixed-language texts. K (c02typst.rs): op `typst` — the real typst_syntax::Source of every Typst text serialised by calling exactly the accessors typst_translator.rs calls (per Expr / Pattern / Arg / Param / ArrayItem / DictItem / DestructuringItem variant: the match arm, the byte range doc.range(span) gives or `-` for a detached node, the node text where the translator reads it, the accessor results as subtrees) + the text → the Lean model of harper_typst::Typst.parse (convert_parbreaks, parse_expr / parse_pattern arm by arm, def_token! / merge! / get_text!, OffsetCursor, inner PlainEnglish parse computed by the model) vs the real parser; op `typok` — the harness's Rust mirror of TreeOK / NoAlias / InOrder vs the model's own definitions; monitors on every real tree: TreeOK, in-bounds-when-TreeOK, sorted-when-InOrder: corpus (the repo's Typst fixtures, the recorded findings' witnesses), ALL concatenations of ≤4 (quick) / ≤5 (thorough) of the 20 pieces {`#let `, x, ` = `, (, ), [, ], *a*, _b_, `= H`, newline, `- i`, $x$, \"s\", #f, `: `, `, `, .., space, é}, every prefix of four realistic documents and (every 7th / every) prefix of the fixtures, random Typst markup / code soup / spliced documents. Ops `htmlclamp` / `htmlclampt` — the Space clamp of HtmlParser::parse on the tokens of the inner Mask parse (random HTML with runs of blanks and tabs). Op `htmlparse` — the whole HtmlParser::parse: text + the mask the real TreeSitterMasker computes → the model's maskParse with its own PlainEnglish + clamp vs the real parser (HTML fixtures and corner cases, ALL concatenations of ≤4/≤5 of 11 HTML pieces, random HTML); `typok` carries a fourth field RangesSolid and is also run on synthetic trees (one range of a real tree emptied). Non-trivial = a plain text whose tokens have ≥3 distinct kinds; distinct by op line.",
         true,
         json!({"exhaustive_scope": format!("all strings of length ≤{} over each of two 14-character alphabets; all sequences of ≤{} pieces over 16 pieces", maxlen, maxlen), "language_ids": ids}),
     );
